@@ -482,6 +482,7 @@ void h_CACW_run(void) { struct ComputeAndClearWrap *wr; ComputeAndClearWrap_run(
  * ran it (job_map[p]) and the part is marked Computed; Status = Computed.
  * mpi_skel::run (C16, mpi.c) and boost::mpi::reduce are contract stubs. */
 #include "../stubs/mpi.h"
+#undef swap          /* mpi.h: generic std::swap for the dispatcher types; here swap is the function for CplxVec below */
 void VERIF_mpi_store_hook(MpiReq *dst, MpiReq src) { }
 void VERIF_mpi_send_hook(Comm *c, int dest, int tag, _Bool has_value, int value) { }
 void VERIF_mpi_post_hook(int source, int tag, int *buf) { }
